@@ -215,6 +215,13 @@ pub fn next_solution<'a>(sn: Rc<RefCell<SolutionNode<'a>>>)
     crate::verif_hooks::verif_tick();
 
     if no_backtracking(&sn) { return None; }
+
+    // When the query has been stopped (timed out), the search must not
+    // go on. A subgoal which was cut short fails, so not(...) around it
+    // would succeed, and the goals after it would be evaluated with
+    // bindings which the query never produces.
+    if query_stopped() { return None; }
+
     let goal = get_goal(&sn);
 
     match &*goal {
